@@ -298,6 +298,8 @@ pub fn replay(ctx: &Ctx, check: &str, tape: &[u8]) -> Verdict {
         "near_valid" => near_valid_case(ctx, tape, &rec),
         "bytes" => bytes_case(ctx, tape, &rec),
         "corpus" => file_case(ctx, &String::from_utf8_lossy(tape)),
+        "fuzz_pipeline_bytes" => confirm_artifact(ctx, tape, false),
+        "fuzz_pipeline_tape" => confirm_artifact(ctx, tape, true),
         _ => Err(Bad::new(format!("unknown check {check}"))),
     }
 }
@@ -334,6 +336,26 @@ pub fn run(ctx: &Ctx) -> i32 {
     let fails = run_tapes(ctx, "bytes", n / 2, 1200, &stats, |tape, rec| bytes_case(ctx, tape, rec));
     outcome.absorb(&known, fails);
 
+    let mut fuzz_extra = json!({"stage": "not run in the quick tier"});
+    if ctx.tier == Tier::Thorough {
+        let seeds: Vec<Vec<u8>> = corpus_files().iter().filter_map(|f| std::fs::read(f).ok()).filter(|b| b.len() < 6000).collect();
+        let mut summary = Vec::new();
+        for (target, from_tape) in [("pipeline_bytes", false), ("pipeline_tape", true)] {
+            let fo = run_fuzz_target(ctx, target, 8, 150_000, 4096, if from_tape { &[] } else { &seeds });
+            stats.eval(fo.execs);
+            stats.class_n(&format!("libfuzzer:{target}:executions"), fo.execs);
+            let mut confirmed = 0;
+            for a in &fo.artifacts {
+                // the in-process replica is not `main`: only a crash of the real binary counts
+                if let Err(b) = confirm_artifact(ctx, a, from_tape) {
+                    confirmed += 1;
+                    outcome.absorb(&known, vec![Failure { check: format!("fuzz_{target}"), tape: a.clone(), reason: b.reason, signature: b.signature, rendered: b.rendered }]);
+                }
+            }
+            summary.push(json!({"target": target, "ran": fo.ran, "executions": fo.execs, "artifacts": fo.artifacts.len(), "confirmed_by_real_binary": confirmed, "note": fo.note}));
+        }
+        fuzz_extra = json!(summary);
+    }
     finish(
         ctx,
         &stats,
@@ -345,7 +367,7 @@ pub fn run(ctx: &Ctx) -> i32 {
                 "modest size: files <= 16 KiB, generator nesting depth <= 8 (deep nesting overflowing the stack is recorded separately as a known finding)".into(),
                 "unbounded running is approximated by a CPU budget of 120 s (480 s on re-run), far above the documented 2 x 10 s time box".into(),
             ],
-            extra: json!({}),
+            extra: json!({"coverage_guided_stage": fuzz_extra}),
         },
         start,
     )
